@@ -359,8 +359,13 @@ class IntegerSequence(SequenceBase):
                 self.i_step = None
                 self.p_stop = self.p_start
             else:
+                span = int(self.p_stop - self.p_start)
+                if span % (reps - 1):
+                    # the points cannot be evenly spaced on integers
+                    raise IntervalParsingError(
+                        "IntegerInterval", repr(f"P{span / (reps - 1)}"))
                 self.i_step = IntegerInterval.from_integer(
-                    int(self.p_stop - self.p_start) / (reps - 1)
+                    span // (reps - 1)
                 )
         else:
             # This means that format_num == 4.
@@ -375,10 +380,12 @@ class IntegerSequence(SequenceBase):
                     self.p_start = (
                         self.p_stop - self.i_step * (reps - 1))
             else:
-                remainder = (int(self.p_context_stop - self.p_start) %
+                # first point >= the context start, counting back from
+                # the (on-sequence) stop point
+                remainder = (int(self.p_stop - self.p_context_start) %
                              int(self.i_step))
                 self.p_start = (
-                    self.p_context_start - IntegerInterval.from_integer(
+                    self.p_context_start + IntegerInterval.from_integer(
                         remainder)
                 )
 
@@ -392,7 +399,7 @@ class IntegerSequence(SequenceBase):
         if self.i_step and self.p_start < self.p_context_start:
             # start from first point >= context start
             remainder = (
-                int(self.p_context_start - self.p_start) % int(self.i_step))
+                int(self.p_start - self.p_context_start) % int(self.i_step))
             self.p_start = (
                 self.p_context_start + IntegerInterval.from_integer(
                     remainder)
@@ -405,8 +412,7 @@ class IntegerSequence(SequenceBase):
             remainder = (
                 int(self.p_context_stop - self.p_start) % int(self.i_step))
             self.p_stop = (
-                self.p_context_stop - self.i_step +
-                IntegerInterval.from_integer(remainder)
+                self.p_context_stop - IntegerInterval.from_integer(remainder)
             )
             # if i_step is None here, points will just be None (out of bounds)
 
